@@ -1230,8 +1230,13 @@ def _run_case(case, cfg, res, hooks, observers, mask, max_steps):
                 res.exc = e
                 res.outcome = 'runaway'
             except Hang as e:
+                # a wall-clock limit is never a verdict: the case is
+                # inconclusive (the engine evaluates C(13, 5) hands per player
+                # and board in some generated games, which is slow, not
+                # stuck; unbounded *operation counts* are caught by the
+                # Runaway observer instead)
                 res.exc = e
-                res.outcome = 'hang'
+                res.outcome = 'discard'
             except Exception as e:  # noqa: BLE001
                 if not is_engine_exception(e):
                     raise
